@@ -138,11 +138,14 @@ class Exclusivity(O.Monitor):
         for nd in self.nodes:
             if nd.overtime:
                 self.activity["overtime_completions"] += len(nd.overtime)
-        # utilisation: only for a single completed simulate_until_max_time call without any pre-emption
+        # utilisation: for completed simulate_until_max_time calls (one or several: stopping and continuing does not change the statistics)
+        # without any pre-emption
         steps = Q.plan_steps
-        if self.preemptive or res.calls_completed != 1 or len(steps) != 1 or steps[0][0] != "max_time" or res.aborted or res.budget_hit:
+        if self.preemptive or res.calls_completed != len(steps) or not steps or any(st_[0] != "max_time" for st_ in steps) or res.aborted or res.budget_hit:
             return
-        T = float(steps[0][1])
+        T = float(steps[-1][1])
+        if len(steps) > 1:
+            self.activity["utilisation_checked_after_several_stops"] = 1
         self.activity["utilisation_checked"] = 0
         for nd in self.nodes:
             att = life = 0.0
